@@ -244,11 +244,8 @@ func validate(u gen.Universe, root [2]string) (obs, exp string, st stats, status
 			if !active {
 				st.falseMarker = true
 				if edges[k] > 0 {
-					// (the root is never replaced: nothing stale can hang off it)
-					if i != 0 && otherVersionRequires(sch, n.Version, r.Name, r.Version) {
-						staleEdges++
-						continue
-					}
+					// (until the repair e91457d edges left by a replaced pin were
+					// emitted from the new pin and had to be tolerated here)
 					note := ""
 					if strings.HasPrefix(truth, "extra:") {
 						// who asks for that extra? a version that is no longer in the graph
@@ -339,10 +336,6 @@ func validate(u gen.Universe, root [2]string) (obs, exp string, st stats, status
 			}
 		}
 		if explained {
-			continue
-		}
-		if e.From != 0 && otherVersionRequires(sch, from, to.Name, e.Requirement) {
-			staleEdges++
 			continue
 		}
 		return fmt.Sprintf("edge %s@%s -[%s]-> %s@%s does not stem from any requirement of %s@%s", from.Name, from.Version, e.Requirement, to.Name, to.Version, from.Name, from.Version), "every edge represents a requirement of its source version", st, "ok", nil
